@@ -219,3 +219,191 @@ def rule_env_scope(ctx):
                 r.ok(q, sample={"producer": q, "working network": sorted(works), "norms stripped from": "the boundary only"})
     r.floor(n, 1, "environment producers that charge the accrued exponent to the environment")
     return r
+
+
+def rule_stored_env_private(ctx):
+    r = RuleResult(
+        "stored-env-private",
+        "an environment producer keeps contracting its working network in place after it has stored an environment selected from it; "
+        "boundary modes that insert projectors (or otherwise rewrite tensors) relabel the boundary tensors *in place*, so a stored "
+        "selection must be a private copy (select*(..., virtual=False) / .copy()) — a virtual view shares the tensor objects and the "
+        "stored environment no longer combines with the rest of the lattice to the value of the whole",
+    )
+    n = 0
+    for modname in MODULES:
+        mod = ctx.prog.modules.get(modname)
+        if mod is None:
+            continue
+        for f in mod.all_functions:
+            if f.is_alias or isinstance(f.node, ast.Lambda) or f.parent is not None:
+                continue
+            walk = list(_own_walk(f.node))
+            # working networks: receive an in-place boundary contraction inside a loop
+            loops = [x for x in walk if isinstance(x, (ast.For, ast.While))]
+            working = set()
+            for lp in loops:
+                for x in ast.walk(lp):
+                    if isinstance(x, ast.Call) and isinstance(x.func, ast.Attribute) and isinstance(x.func.value, ast.Name) and x.func.attr.endswith("_") \
+                            and x.func.attr.startswith(("contract_boundary", "_contract_boundary", "contract_")):
+                        working.add(x.func.value.id)
+                    if isinstance(x, ast.AugAssign) and isinstance(x.op, ast.BitXor) and isinstance(x.target, ast.Name):
+                        working.add(x.target.id)
+            if not working:
+                continue
+            ldefs = {}
+            for a in walk:
+                if isinstance(a, ast.Assign) and len(a.targets) == 1 and isinstance(a.targets[0], ast.Name):
+                    ldefs.setdefault(a.targets[0].id, []).append(a.value)
+            for a in walk:
+                if not (isinstance(a, ast.Assign) and len(a.targets) == 1 and isinstance(a.targets[0], ast.Subscript) and isinstance(a.targets[0].value, ast.Name)):
+                    continue
+                vals = [a.value]
+                if isinstance(a.value, ast.Name):
+                    vals = ldefs.get(a.value.id, [])
+                for v in vals:
+                    sel = v
+                    copied = False
+                    if isinstance(sel, ast.Call) and isinstance(sel.func, ast.Attribute) and sel.func.attr == "copy":
+                        copied = True
+                        sel = sel.func.value
+                    if not (isinstance(sel, ast.Call) and isinstance(sel.func, ast.Attribute) and sel.func.attr in SELECTS | {"_select_tids"}
+                            and isinstance(sel.func.value, ast.Name) and sel.func.value.id in working):
+                        continue
+                    n += 1
+                    virt = next((k.value for k in sel.keywords if k.arg == "virtual"), None)
+                    private = copied or (isinstance(virt, ast.Constant) and virt.value is False)
+                    q = f"{f.qualname}:{a.targets[0].value.id}[{src_of(a.targets[0].slice)[:30]}]"
+                    if private:
+                        r.ok(q, sample={"producer": f.qualname, "stored": src_of(v)[:60], "private": True})
+                    else:
+                        r.bad(Finding("stored-env-private", f.qualname,
+                                      f"stores `{src_of(v)[:60]}` — a virtual view of the working network `{sel.func.value.id}` that is contracted further in place: "
+                                      "a boundary mode that relabels tensors in place (projector insertion) leaves the stored environment with dangling indices",
+                                      where=f"{mod.relpath}:{a.lineno}", operand=f"store@{src_of(a.targets[0].slice)[:30]}"))
+    r.floor(n, 4, "environments stored from a working network that is contracted further")
+    return r
+
+
+def rule_gauge_double_count(ctx):
+    r = RuleResult(
+        "gauge-double-count",
+        "typestate of a network whose simple-update gauges were extracted: after `X.gauge_simple_insert(G)` the gauges G are absorbed "
+        "in X's tensors, so X — or a copy of X taken after that point — may not be used in a call that is *also* handed `gauges=G` "
+        "(projectors / environments would be computed with the gauges applied twice); the copy used for such a call is taken while "
+        "the gauges are still extracted",
+    )
+    n = 0
+    for mod in ctx.prog.modules.values():
+        if not mod.name.startswith("quimb.tensor"):
+            continue
+        for f in mod.all_functions:
+            if f.is_alias or isinstance(f.node, ast.Lambda) or f.parent is not None:
+                continue
+            ins = [c for c in _own_walk(f.node) if isinstance(c, ast.Call) and isinstance(c.func, ast.Attribute) and c.func.attr == "gauge_simple_insert"
+                   and isinstance(c.func.value, ast.Name) and c.args and isinstance(c.args[0], ast.Name)]
+            if not ins:
+                continue
+            users = [c for c in _own_walk(f.node) if isinstance(c, ast.Call) and any(k.arg == "gauges" and isinstance(k.value, ast.Name) for k in c.keywords)
+                     and isinstance(c.func, ast.Attribute) and isinstance(c.func.value, ast.Name)]
+            if not users:
+                continue
+            bad = []
+            seen = [0]
+
+            guard_of = {}
+            cur_guard = [None]
+
+            def scan_expr(node, st):
+                for c in ast.walk(node):
+                    if not (isinstance(c, ast.Call) and isinstance(c.func, ast.Attribute) and isinstance(c.func.value, ast.Name)):
+                        continue
+                    recv = c.func.value.id
+                    g = next((k.value.id for k in c.keywords if k.arg == "gauges" and isinstance(k.value, ast.Name)), None)
+                    if g is not None and c.func.attr != "gauge_simple_insert":
+                        seen[0] += 1
+                        if (recv, g) in st:
+                            bad.append((c, recv, g))
+                for c in ast.walk(node):
+                    if isinstance(c, ast.Call) and isinstance(c.func, ast.Attribute) and c.func.attr == "gauge_simple_insert" and isinstance(c.func.value, ast.Name) \
+                            and c.args and isinstance(c.args[0], ast.Name):
+                        st.add((c.func.value.id, c.args[0].id))
+                        guard_of[(c.func.value.id, c.args[0].id)] = cur_guard[0]
+                    # extracting again (gauge_all_simple_(gauges=G) / gauge_simple_remove) returns to the extracted state
+                    if isinstance(c, ast.Call) and isinstance(c.func, ast.Attribute) and c.func.attr in ("gauge_simple_remove",) and isinstance(c.func.value, ast.Name):
+                        for k in list(st):
+                            if k[0] == c.func.value.id:
+                                st.discard(k)
+
+            def run(stmts, st):
+                st = set(st)
+                for s in stmts:
+                    if isinstance(s, (ast.Return, ast.Raise, ast.Continue, ast.Break)):
+                        if isinstance(s, ast.Return) and s.value is not None:
+                            scan_expr(s.value, st)
+                        return None
+                    if isinstance(s, ast.If):
+                        scan_expr(s.test, st)
+                        td, outer_guard = ast.dump(s.test), cur_guard[0]
+                        cur_guard[0] = td
+                        a = run(s.body, st)
+                        cur_guard[0] = outer_guard
+                        b = run(s.orelse, st)
+                        if a is None and b is None:
+                            return None
+                        if a is not None and b is not None:
+                            # correlated branches: what was inserted under this very test and is removed again under it is gone
+                            b = {k for k in b if not (k not in a and guard_of.get(k) == td)}
+                        st = (a or set()) | (b or set())
+                    elif isinstance(s, (ast.For, ast.While)):
+                        a = run(s.body, st)
+                        st = st | (a or set())
+                        a = run(s.body, st)  # second pass: state carried round the loop
+                        st = st | (a or set())
+                    elif isinstance(s, ast.With):
+                        # `with X.gauge_simple_temp(G)` re-extracts on exit: handled as neutral
+                        a = run(s.body, st)
+                        if a is None:
+                            return None
+                        st = a
+                    elif isinstance(s, ast.Try):
+                        a = run(s.body, st)
+                        st = st | (a or set())
+                        for h in s.handlers:
+                            st = st | (run(h.body, st) or set())
+                    elif isinstance(s, ast.Assign):
+                        scan_expr(s.value, st)
+                        for t in s.targets:
+                            if isinstance(t, ast.Name):
+                                # a copy / alias taken now inherits the state of its source
+                                src = s.value
+                                if isinstance(src, ast.Call) and isinstance(src.func, ast.Attribute) and src.func.attr == "copy" and isinstance(src.func.value, ast.Name):
+                                    src = src.func.value
+                                for k in list(st):
+                                    if k[0] == t.id:
+                                        st.discard(k)
+                                if isinstance(src, ast.Name):
+                                    for k in list(st):
+                                        if k[0] == src.id:
+                                            st.add((t.id, k[1]))
+                                # a fresh gauges container resets what was inserted under that name
+                                for k in list(st):
+                                    if k[1] == t.id:
+                                        st.discard(k)
+                    elif isinstance(s, (ast.FunctionDef, ast.ClassDef)):
+                        continue
+                    else:
+                        scan_expr(s, st)
+                return st
+
+            run(f.node.body, set())
+            n += 1
+            if bad:
+                c, recv, g = bad[0]
+                r.bad(Finding("gauge-double-count", f.qualname,
+                              f"`{src_of(c)[:60]}` (line {c.lineno}) uses `{recv}` together with gauges=`{g}` although `{g}` was already inserted into "
+                              f"`{recv}` (or into the network it was copied from): the gauges are counted twice",
+                              where=f"{mod.relpath}:{c.lineno}", operand=f"{recv}:{g}"))
+            else:
+                r.ok(f.qualname, sample={"function": f.qualname, "gauged calls checked": seen[0], "inserts": len(ins)})
+    r.floor(n, 2, "functions that both insert gauges and hand them on")
+    return r
